@@ -852,7 +852,7 @@ def shard(seed, n_runs, steps, fixed=False, anticipated=False):
 
 
 def run(ctx):
-    n_runs, steps = (150, 40) if ctx.quick else (3000, 50)
+    n_runs, steps = (150, 40) if ctx.quick else (2000, 50)
     kws = [dict(seed=ctx.seed, n_runs=0, steps=0, anticipated=True)]
     kws += [
         dict(seed=ctx.seed * 1000 + i, n_runs=n_runs, steps=steps,
